@@ -31,8 +31,10 @@ ENGINE = "E1+E2"
 TECHNIQUE = "E2: source->SMT translation of Need.Check over Int, Real and FP(11,53)"
 LEVEL_TEXT = "E2: Need.Check translated from source and proved equal to the written comparison for the six operators over unbounded Int/Real mixes and over FP(11,53) incl. NaN/inf; non-numeric fallback on a concrete table"
 LEVEL_NOTE = "doubles: the written comparison is read in double arithmetic; trusted: astsmt translator (validated each run), z3 5.1; the end-to-end makeNeed part (E1) is separate"
-FUNCTIONS = ["ioflo.base.needing.Need.Check"]
+FUNCTIONS = ["ioflo.base.needing.Need.Check", "ioflo.base.building.Builder.makeNeed/makeDirectNeed/makeIndirectNeed/makeFramerNeed/makeBoolenNeed",
+             "ioflo.base.needing.NeedDirect/NeedIndirect/NeedBoolean.action", "ioflo.base.acting.Nact.__call__", "ioflo.base.acting.Transiter.action"]
 ASSUMPTIONS = [
+    "E1: one frame with `go b if <condition>`; clause shapes (direct / indirect goal, tolerance, framer clocks, bare state), operators, negation, literal goals {-1,0,2} and tolerances {0,1,-2} are selectors; share values in [-3,3] and the time step in [0,3] are symbolic integers; conjunctions of up to three clauses",
     "E2: state, goal, tolerance are all integers/rationals (eight Int/Real mixes, unbounded) or all IEEE doubles; "
     "a mix of python int and float operands is not modelled",
     "E2: for doubles the written comparison is evaluated in double arithmetic (round-to-nearest sums, IEEE comparisons)",
@@ -189,9 +191,9 @@ def e2_obligations(tier):
 
 
 def e1_obligations(tier):
-    """E1 obligations (makeNeed end-to-end: direct/indirect goals, framer clocks, `not`, `and`,
-    bare truthiness) -- to be added here; return a list of Ob(..., kind="e1")."""
-    return []
+    """end-to-end conditions through Builder.makeNeed on the real framer: harness/C21_e1.py"""
+    from harness.C21_e1 import e1_obligations as e1
+    return e1(tier)
 
 
 def obligations(tier):
